@@ -33,6 +33,16 @@
 //! the instrument the user named); the `dynamic` way in (real `validate_batches` before the mapper); R4 also judges
 //! the L1 `last_update_time` and the event after the real conversion into `MarketEvent<_, DataKind>`; values that are
 //! not exactly representable in binary.
+//! Second hardening round:
+//!   * three WAYS a payload reaches the transformer (`PATHS`): `direct` (`serde_json::from_str::<Input>` + `transform`),
+//!     `exchange-stream` (a text frame through the real `ExchangeStream<WebSocketParser, _, Transformer>` - the stream the
+//!     consumer polls) and `buffered` (the real `process_buffered_events`, the way of a message that arrived while the
+//!     subscriptions were still being validated). R1-R5 hold for every way; the two further ways are judged where the
+//!     direct way is clean for the configuration, under their own signatures (`C13/via-<way>/<rule>/<cause>`).
+//!   * R1 also looks at the SUBSCRIBE REQUESTS the mapper produced (until now only Bitfinex's scripted venue read
+//!     them): a venue streams the markets it was asked for, so every subscribed instrument's venue market must be named
+//!     in a request, in the spelling the venue's request format uses (`requested_markets`).
+//!   * one-sided top of book (`"0.00000000"` price and quantity on one side) as an L1 value class.
 
 use crate::core::{Ctx, Distinct, Outcome, Samples, hash_of};
 use barter_data::{
@@ -96,7 +106,10 @@ use barter_instrument::{
 };
 use barter_integration::{
     Transformer,
-    protocol::{StreamParser, websocket::WsMessage},
+    protocol::{
+        StreamParser,
+        websocket::{WebSocketParser, WsError, WsMessage},
+    },
     stream::ExchangeStream,
 };
 use chrono::{DateTime, SecondsFormat, TimeZone, Utc};
@@ -105,7 +118,7 @@ use rayon::prelude::*;
 use rust_decimal::{Decimal, prelude::ToPrimitive};
 use serde_json::{Value, json};
 use std::{
-    collections::{BTreeMap, BTreeSet},
+    collections::{BTreeMap, BTreeSet, VecDeque},
     fmt::Debug,
     panic::{AssertUnwindSafe, catch_unwind},
     sync::{
@@ -348,6 +361,8 @@ const FLAVOURS: [&str; 5] = ["keyed", "named", "plain", "indexed", "indexed-keye
 /// `Subscription<ExchangeId, Inst, SubKind>` -> real `validate_batches` (validate, sort, dedup) -> re-wrapped with the
 /// connector type per (exchange, kind) exactly as the arms of `DynamicStreams::init` do.
 const VIAS: [&str; 2] = ["direct", "dynamic"];
+/// How a payload reaches the transformer (see module doc). Index 0 is the way every configuration is judged on.
+const PATHS: [&str; 3] = ["direct", "exchange-stream", "buffered"];
 
 // ------------------------------------------------------------------------------------------------
 // Instrument flavours
@@ -559,6 +574,24 @@ fn make_msgs(spec: &PairSpec, market: &str, midx: usize) -> Vec<Msg> {
                 let nums = vec![vec![f(&bp)], vec![f(bq)], vec![f(&ap)], vec![f(aq)]];
                 out.push(m(if v == 0 { "ticker-0" } else { "ticker-1" }, json, vec![Exp { times, nums, side: None }]));
             }
+            // one-sided top of book: the venue writes an empty side as zero price and zero quantity. The event may
+            // show that side as absent or as a zero level; the OTHER side is as stated.
+            for (v, bid_empty) in [(2usize, true), (3, false)] {
+                let (p, q, t) = (price(midx, v), QTY[v], t_ms(midx, v));
+                let z = "0.00000000";
+                let (bp, bq, ap, aq) = if bid_empty { (z, z, p.as_str(), q) } else { (p.as_str(), q, z, z) };
+                let (json, times) = if spec.id == ExchangeId::BinanceSpot {
+                    (format!(r#"{{"u":22606535574,"s":"{market}","b":"{bp}","B":"{bq}","a":"{ap}","A":"{aq}"}}"#), vec![])
+                } else {
+                    (
+                        format!(r#"{{"e":"bookTicker","u":2286618712951,"s":"{market}","b":"{bp}","B":"{bq}","a":"{ap}","A":"{aq}","T":{t},"E":{}}}"#, t + 3),
+                        vec![ms(t), ms(t + 3)],
+                    )
+                };
+                let (empty, full) = (vec![vec![0.0, f64::NAN], vec![0.0, f64::NAN]], vec![vec![f(&p)], vec![f(q)]]);
+                let nums = if bid_empty { [empty, full].concat() } else { [full, empty].concat() };
+                out.push(m(if bid_empty { "bid-side-empty" } else { "ask-side-empty" }, json, vec![Exp { times, nums, side: None }]));
+            }
         }
         (Fam::Binance, SK::L2) => {
             // first update brackets the snapshot's lastUpdateId (100) for both the spot and the futures
@@ -596,9 +629,12 @@ fn make_msgs(spec: &PairSpec, market: &str, midx: usize) -> Vec<Msg> {
                 let t = ms(t_ms(midx, v)).to_rfc3339_opts(SecondsFormat::Millis, true);
                 let size = 100 * (v + 1);
                 let s = if side == Side::Buy { "Buy" } else { "Sell" };
+                // `size` is the traded quantity. Only for XBTUSD (the doc-comment example: an inverse contract worth one
+                // USD) does the quote notional equal it; for every other contract the notionals are other numbers.
+                let foreign_notional = if market == "XBTUSD" { size as f64 } else { size as f64 * 2.5 + 1.0 };
                 (
                     format!(
-                        r#"{{"timestamp":"{t}","symbol":"{market}","side":"{s}","size":{size},"price":{},"tickDirection":"MinusTick","trdMatchID":"31e50cb7-e005-a44e-f354-86e88dff52e{v}","grossValue":814184,"homeNotional":0.00814184,"foreignNotional":{size},"trdType":"Regular"}}"#,
+                        r#"{{"timestamp":"{t}","symbol":"{market}","side":"{s}","size":{size},"price":{},"tickDirection":"MinusTick","trdMatchID":"31e50cb7-e005-a44e-f354-86e88dff52e{v}","grossValue":814184,"homeNotional":0.00814184,"foreignNotional":{foreign_notional},"trdType":"Regular"}}"#,
                         price(midx, v)
                     ),
                     trade_exp(vec![ms(t_ms(midx, v))], &price(midx, v), vec![size as f64], side),
@@ -727,6 +763,17 @@ fn make_msgs(spec: &PairSpec, market: &str, midx: usize) -> Vec<Msg> {
                 let nums = vec![vec![f(&bp)], vec![f(QTY[v])], vec![f(&ap)], vec![f(QTY[v + 1])]];
                 out.push(m(if v == 0 { "spread-0" } else { "spread-1" }, json, vec![Exp { times: vec![us(t_us)], nums, side: None }]));
             }
+            // one-sided top of book (see Binance L1)
+            for (v, bid_empty) in [(2usize, true), (3, false)] {
+                let t_us = t_ms(midx, v) * 1000 + 500;
+                let (p, q) = (price(midx, v), QTY[v]);
+                let z = "0.00000000";
+                let (bp, bq, ap, aq) = if bid_empty { (z, z, p.as_str(), q) } else { (p.as_str(), q, z, z) };
+                let json = format!(r#"[0,["{bp}","{ap}","{}.{:06}","{bq}","{aq}"],"spread","{market}"]"#, t_us / 1_000_000, t_us % 1_000_000);
+                let (empty, full) = (vec![vec![0.0, f64::NAN], vec![0.0, f64::NAN]], vec![vec![f(&p)], vec![f(q)]]);
+                let nums = if bid_empty { [empty, full].concat() } else { [full, empty].concat() };
+                out.push(m(if bid_empty { "bid-side-empty" } else { "ask-side-empty" }, json, vec![Exp { times: vec![us(t_us)], nums, side: None }]));
+            }
         }
         (Fam::Okx, _) => {
             let row = |v: usize, side: Side| {
@@ -784,8 +831,9 @@ trait Ev: Sized + Debug {
     fn side(&self) -> Option<Side> {
         None
     }
-    /// A second place in which the event kind itself carries the exchange time of the update (L1 `last_update_time`).
-    fn kind_time(&self) -> Option<DateTime<Utc>> {
+    /// A second place in which the event kind itself carries an exchange time of the message (L1 `last_update_time`,
+    /// `Liquidation::time`, the L2 book's `time_engine` where the connector sets one), with the name used in signatures.
+    fn kind_time(&self) -> Option<(&'static str, DateTime<Utc>)> {
         None
     }
     /// Initial snapshot the (L2) transformer needs for a subscribed key; built with the real conversion
@@ -812,6 +860,9 @@ impl Ev for Liquidation {
     fn side(&self) -> Option<Side> {
         Some(self.side)
     }
+    fn kind_time(&self) -> Option<(&'static str, DateTime<Utc>)> {
+        Some(("liquidation-time", self.time))
+    }
 }
 impl Ev for OrderBookL1 {
     fn nums(&self) -> Vec<f64> {
@@ -819,8 +870,8 @@ impl Ev for OrderBookL1 {
         let (b, a) = (lvl(&self.best_bid), lvl(&self.best_ask));
         vec![b.0, b.1, a.0, a.1]
     }
-    fn kind_time(&self) -> Option<DateTime<Utc>> {
-        Some(self.last_update_time)
+    fn kind_time(&self) -> Option<(&'static str, DateTime<Utc>)> {
+        Some(("last-update-time", self.last_update_time))
     }
 }
 impl Ev for OrderBookEvent {
@@ -829,6 +880,12 @@ impl Ev for OrderBookEvent {
             OrderBookEvent::Snapshot(b) | OrderBookEvent::Update(b) => b,
         };
         book.bids().levels().iter().chain(book.asks().levels()).flat_map(|l| [d(l.price), d(l.amount)]).collect()
+    }
+    fn kind_time(&self) -> Option<(&'static str, DateTime<Utc>)> {
+        let book: &OrderBook = match self {
+            OrderBookEvent::Snapshot(b) | OrderBookEvent::Update(b) => b,
+        };
+        book.time_engine.map(|t| ("book-time-engine", t))
     }
     fn snapshot<K>(ex: ExchangeId, key: K) -> Option<MarketEvent<K, Self>> {
         let snap: BinanceOrderBookL2Snapshot =
@@ -855,9 +912,11 @@ impl Ev for DataKind {
             _ => None,
         }
     }
-    fn kind_time(&self) -> Option<DateTime<Utc>> {
+    fn kind_time(&self) -> Option<(&'static str, DateTime<Utc>)> {
         match self {
             DataKind::OrderBookL1(x) => x.kind_time(),
+            DataKind::OrderBook(x) => x.kind_time(),
+            DataKind::Liquidation(x) => x.kind_time(),
             _ => None,
         }
     }
@@ -872,7 +931,7 @@ struct ObsEv {
     key: Option<usize>,
     exchange: ExchangeId,
     time: DateTime<Utc>,
-    kind_time: Option<DateTime<Utc>>,
+    kind_time: Option<(&'static str, DateTime<Utc>)>,
     nums: Vec<f64>,
     side: Option<Side>,
 }
@@ -894,7 +953,59 @@ struct Driven {
     /// not a verdict yet – re-run sequentially with environment health checks at the end of the exploration
     unsettled: bool,
     msgs: Vec<Msg>,
-    obs: Vec<MsgObs>,
+    /// per way of `PATHS`: one observation per message (ways 1.. are empty if their transformer could not be built)
+    obs: [Vec<MsgObs>; 3],
+    /// the venue markets named in the subscribe requests the mapper produced (None: Bitfinex - its scripted venue reads
+    /// the requests during the handshake); Err: a request the venue's request format does not describe
+    requested: Option<Result<Vec<String>, String>>,
+}
+
+/// The venue side of a SUBSCRIBE REQUEST: which markets does the venue start streaming? Request formats from the
+/// connectors' `Connector::requests` / subscription doc comments: Binance `{"method":"SUBSCRIBE","params":
+/// ["btcusdt@trade"],"id":1}` (stream names are LOWER case - the connector's own note: "Market must be lowercase when
+/// subscribing"), Bybit `{"op":"subscribe","args":["publicTrade.BTCUSDT"]}`, BitMEX `{"op":"subscribe","args":
+/// ["trade:XBTUSD"]}`, Coinbase `{"type":"subscribe","product_ids":["BTC-USD"],"channels":["matches"]}`, Gate.io
+/// `{"time":..,"channel":"spot.trades","event":"subscribe","payload":["BTC_USDT"]}`, Kraken `{"event":"subscribe",
+/// "pair":["XBT/USD"],"subscription":{"name":"trade"}}`, OKX `{"op":"subscribe","args":[{"channel":"trades","instId":
+/// "BTC-USDT"}]}`. Returned in the spelling the venue uses in its data messages (`venue_symbol`); a venue's market
+/// names are case sensitive.
+fn requested_markets(fam: Fam, requests: &[WsMessage]) -> Result<Vec<String>, String> {
+    let mut out = Vec::new();
+    for r in requests {
+        let WsMessage::Text(text) = r else { return Err(format!("subscribe request is not a text frame: {r:?}")) };
+        let v: Value = serde_json::from_str(text.as_str()).map_err(|e| format!("subscribe request is not JSON ({e}): {text}"))?;
+        let strings = |field: &Value| -> Result<Vec<String>, String> {
+            field
+                .as_array()
+                .ok_or_else(|| format!("subscribe request lists no markets where the venue reads them: {text}"))?
+                .iter()
+                .map(|x| x.as_str().map(str::to_string).ok_or_else(|| format!("non-string market entry in {text}")))
+                .collect()
+        };
+        match fam {
+            Fam::Binance => {
+                for stream in strings(&v["params"])? {
+                    let sym = stream.split('@').next().unwrap_or("").to_string();
+                    // an upper / mixed case stream name is not a stream the venue knows
+                    if sym == sym.to_lowercase() {
+                        out.push(sym.to_uppercase());
+                    }
+                }
+            }
+            Fam::Bybit => out.extend(strings(&v["args"])?.iter().filter_map(|a| a.split_once('.').map(|x| x.1.to_string()))),
+            Fam::Bitmex => out.extend(strings(&v["args"])?.iter().filter_map(|a| a.split_once(':').map(|x| x.1.to_string()))),
+            Fam::Coinbase => out.extend(strings(&v["product_ids"])?),
+            Fam::Gateio => out.extend(strings(&v["payload"])?),
+            Fam::Kraken => out.extend(strings(&v["pair"])?),
+            Fam::Okx => {
+                for a in v["args"].as_array().ok_or_else(|| format!("subscribe request without args: {text}"))? {
+                    out.push(a["instId"].as_str().ok_or_else(|| format!("subscribe arg without instId: {text}"))?.to_string());
+                }
+            }
+            Fam::Bitfinex => unreachable!("bitfinex requests are read by the scripted venue"),
+        }
+    }
+    Ok(out)
 }
 
 // ------------------------------------------------------------------------------------------------
@@ -942,7 +1053,7 @@ where
     let (menu_insts, key_problems): Menu<Inst> = match Inst::build_menu(spec) {
         Ok(m) => m,
         Err(e) => {
-            return Driven { canon: (0..spec.menu.len()).collect(), map_ids: vec![], setup_err: Some(format!("indexing: {e}")), unsettled: false, msgs: vec![], obs: vec![] };
+            return Driven { canon: (0..spec.menu.len()).collect(), map_ids: vec![], setup_err: Some(format!("indexing: {e}")), unsettled: false, msgs: vec![], obs: Default::default(), requested: None };
         }
     };
     let canon: Vec<usize> = (0..menu_insts.len())
@@ -951,7 +1062,7 @@ where
     let key_idx = |k: &Inst::Key| menu_insts.iter().position(|m| m.key() == k);
 
     let universe = spec.universe();
-    let mut driven = Driven { canon, map_ids: vec![], setup_err: None, unsettled: false, msgs: vec![], obs: vec![] };
+    let mut driven = Driven { canon, map_ids: vec![], setup_err: None, unsettled: false, msgs: vec![], obs: Default::default(), requested: None };
     // a subscribed instrument whose key (computed by code under test) is not the key of the instrument the user named
     if let Some(p) = a.subset.iter().find_map(|i| key_problems[*i].as_ref()) {
         driven.setup_err = Some(format!("indexing: wrong-instrument: {p}"));
@@ -976,6 +1087,9 @@ where
     // subscription side: the real mapper
     let subs: Vec<Subscription<Ex, Inst, Kind>> = insts.into_iter().map(|inst| Subscription::new(Ex::default(), inst, kind.clone())).collect();
     let meta: SubscriptionMeta<Inst::Key> = WebSocketSubMapper::map::<Ex, Inst, Kind>(&subs);
+    if spec.fam != Fam::Bitfinex {
+        driven.requested = Some(requested_markets(spec.fam, &meta.ws_subscriptions));
+    }
 
     // Bitfinex: the real validator re-keys the table with the venue's channel ids
     let (map, mut msgs): (Map<Inst::Key>, Vec<Msg>) = if spec.fam == Fam::Bitfinex {
@@ -1010,62 +1124,109 @@ where
     let snapshots: Vec<MarketEvent<Inst::Key, Kind::Event>> =
         subs.iter().filter_map(|s| <Kind::Event as Ev>::snapshot(Ex::ID, s.instrument.key().clone())).collect();
     let (tx, _rx) = tokio::sync::mpsc::unbounded_channel::<WsMessage>();
-    let mut transformer = match futures::executor::block_on(<TOf<Ex, Inst, Kind> as ExchangeTransformer<Ex, Inst::Key, Kind>>::init(map, &snapshots, tx)) {
+    let mk = |map: Map<Inst::Key>| futures::executor::block_on(<TOf<Ex, Inst, Kind> as ExchangeTransformer<Ex, Inst::Key, Kind>>::init(map, &snapshots, tx.clone()));
+    let mut transformer = match mk(map.clone()) {
         Ok(t) => t,
         Err(e) => {
             driven.setup_err = Some(format!("transformer init failed: {e}"));
             return driven;
         }
     };
+    // what the consumer gets to see of one output item
+    let obs_of = |r: Result<MarketEvent<Inst::Key, Kind::Event>, barter_data::error::DataError>| -> Result<ObsEv, String> {
+        match r {
+            Ok(ev) => {
+                let mut pre = ObsEv {
+                    conv_diff: None,
+                    key: key_idx(&ev.instrument).map(|i| driven.canon[i]),
+                    exchange: ev.exchange,
+                    time: ev.time_exchange,
+                    kind_time: ev.kind.kind_time(),
+                    nums: ev.kind.nums(),
+                    side: ev.kind.side(),
+                };
+                let conv: MarketEvent<Inst::Key, DataKind> = ev.into();
+                let post = ObsEv {
+                    conv_diff: None,
+                    key: key_idx(&conv.instrument).map(|i| driven.canon[i]),
+                    exchange: conv.exchange,
+                    time: conv.time_exchange,
+                    kind_time: conv.kind.kind_time(),
+                    nums: conv.kind.nums(),
+                    side: conv.kind.side(),
+                };
+                let (a, b) = (format!("{pre:?}"), format!("{post:?}"));
+                if a != b {
+                    pre.conv_diff = Some(format!("transformer output {a}, as MarketEvent<_, DataKind> {b}"));
+                }
+                Ok(pre)
+            }
+            Err(e) => Err(format!("{e} / {e:?}")),
+        }
+    };
 
-    // message side: real deserialisation + real transform
+    // way 0 - message side: real deserialisation + real transform
+    let mut direct = Vec::with_capacity(msgs.len());
     for msg in &msgs {
         let input = match serde_json::from_str::<<TOf<Ex, Inst, Kind> as Transformer>::Input>(&msg.json) {
             Ok(i) => i,
             Err(e) => {
-                driven.obs.push(MsgObs::DeErr(e.to_string()));
+                direct.push(MsgObs::DeErr(e.to_string()));
                 continue;
             }
         };
         let res = catch_unwind(AssertUnwindSafe(|| transformer.transform(input).into_iter().collect::<Vec<_>>()));
-        driven.obs.push(match res {
+        direct.push(match res {
             Err(_) => MsgObs::Panic,
-            Ok(items) => MsgObs::Out(
-                items
-                    .into_iter()
-                    .map(|r| match r {
-                        Ok(ev) => {
-                            let mut pre = ObsEv {
-                                conv_diff: None,
-                                key: key_idx(&ev.instrument).map(|i| driven.canon[i]),
-                                exchange: ev.exchange,
-                                time: ev.time_exchange,
-                                kind_time: ev.kind.kind_time(),
-                                nums: ev.kind.nums(),
-                                side: ev.kind.side(),
-                            };
-                            let conv: MarketEvent<Inst::Key, DataKind> = ev.into();
-                            let post = ObsEv {
-                                conv_diff: None,
-                                key: key_idx(&conv.instrument).map(|i| driven.canon[i]),
-                                exchange: conv.exchange,
-                                time: conv.time_exchange,
-                                kind_time: conv.kind.kind_time(),
-                                nums: conv.kind.nums(),
-                                side: conv.kind.side(),
-                            };
-                            let (a, b) = (format!("{pre:?}"), format!("{post:?}"));
-                            if a != b {
-                                pre.conv_diff = Some(format!("transformer output {a}, as MarketEvent<_, DataKind> {b}"));
-                            }
-                            Ok(pre)
-                        }
-                        Err(e) => Err(format!("{e} / {e:?}")),
-                    })
-                    .collect(),
-            ),
+            Ok(items) => MsgObs::Out(items.into_iter().map(&obs_of).collect()),
         });
     }
+
+    // way 1 - the same payloads as text frames through the real `ExchangeStream<WebSocketParser, _, Transformer>` (what
+    // `MarketStream::init` returns, here over an in-memory frame source instead of a socket): one stream per frame so
+    // that outputs can be attributed; the transformer (stateful for L2) is carried from stream to stream.
+    // way 2 - the same payloads through the real `process_buffered_events` (frames that arrived during validation).
+    // A payload the message type does not deserialise (way 0 says so) is not offered again: the stream reports it as
+    // a socket error and the buffer drops it by design.
+    let mut stream_obs = Vec::new();
+    let mut buffered_obs = Vec::new();
+    if let (Ok(t1), Ok(mut t2)) = (mk(map.clone()), mk(map)) {
+        let mut t1 = Some(t1);
+        for (msg, d0) in msgs.iter().zip(&direct) {
+            if let MsgObs::DeErr(e) = d0 {
+                stream_obs.push(MsgObs::DeErr(e.clone()));
+                buffered_obs.push(MsgObs::DeErr(e.clone()));
+                continue;
+            }
+            let Some(t) = t1.take() else { break };
+            let res = catch_unwind(AssertUnwindSafe(move || {
+                let frames = futures::stream::iter(vec![Ok::<WsMessage, WsError>(WsMessage::text(msg.json.clone()))]);
+                let mut s = ExchangeStream::<WebSocketParser, _, TOf<Ex, Inst, Kind>>::new(frames, t, VecDeque::new());
+                let mut out = Vec::new();
+                futures::executor::block_on(async {
+                    while let Some(item) = s.next().await {
+                        out.push(item);
+                    }
+                });
+                (s.transformer, out)
+            }));
+            stream_obs.push(match res {
+                Err(_) => MsgObs::Panic, // the transformer is gone with the stream: this way ends here
+                Ok((t, items)) => {
+                    t1 = Some(t);
+                    MsgObs::Out(items.into_iter().map(&obs_of).collect())
+                }
+            });
+            let res = catch_unwind(AssertUnwindSafe(|| {
+                barter_data::process_buffered_events::<WebSocketParser, TOf<Ex, Inst, Kind>>(&mut t2, vec![WsMessage::text(msg.json.clone())])
+            }));
+            buffered_obs.push(match res {
+                Err(_) => MsgObs::Panic,
+                Ok(items) => MsgObs::Out(items.into_iter().map(&obs_of).collect()),
+            });
+        }
+    }
+    driven.obs = [direct, stream_obs, buffered_obs];
     driven.msgs = msgs;
     driven
 }
@@ -1220,6 +1381,11 @@ struct Stats {
     collision_msgs: AtomicU64,
     collision_configs: AtomicU64,
     collision_handshake_rejected: AtomicU64,
+    /// messages judged on the ways 1.. of `PATHS`
+    other_way_msgs: AtomicU64,
+    /// configurations whose further ways were not judged because the direct way already reported for them
+    other_ways_gated: AtomicU64,
+    request_checks: AtomicU64,
 }
 
 fn denotes_unidentifiable(err: &str, market: &str) -> bool {
@@ -1252,8 +1418,30 @@ fn cause_of_miss(d: &Driven, owners: &BTreeSet<usize>, market: &str) -> &'static
     "owner-not-in-table"
 }
 
-/// Evaluate the oracle over every message of one configuration. `report(signature, detail, market, variant)`.
+/// Evaluate the oracle over every message of one configuration on every way of `PATHS`: the direct way first; the
+/// further ways only where the direct way is clean (so that a connector defect is reported once, where it lives).
 fn judge(spec: &PairSpec, flavour: usize, via: usize, subset: &[usize], d: &Driven, stats: &Stats, outcomes: &mut BTreeSet<String>, report: &mut dyn FnMut(String, String, &str, &str)) {
+    let mut n = 0usize;
+    judge_way(spec, flavour, via, subset, d, 0, stats, outcomes, &mut |sig, detail, market, variant| {
+        n += 1;
+        report(sig, detail, market, variant)
+    });
+    if n > 0 {
+        stats.other_ways_gated.fetch_add(1, Relaxed);
+        return;
+    }
+    for way in 1..PATHS.len() {
+        judge_way(spec, flavour, via, subset, d, way, stats, outcomes, &mut |sig, detail, market, variant| {
+            // one signature per (way, rule, cause): the ways are connector independent code
+            let parts: Vec<&str> = sig.split('/').collect();
+            let sig = format!("C13/via-{}/{}/{}", PATHS[way], parts.get(1).copied().unwrap_or("?"), parts.last().copied().unwrap_or("?"));
+            report(sig, format!("way={} {detail}", PATHS[way]), market, variant)
+        });
+    }
+}
+
+/// The oracle over every message of one configuration as observed on one way. `report(signature, detail, market, variant)`.
+fn judge_way(spec: &PairSpec, flavour: usize, via: usize, subset: &[usize], d: &Driven, way: usize, stats: &Stats, outcomes: &mut BTreeSet<String>, report: &mut dyn FnMut(String, String, &str, &str)) {
     let fam = format!("{:?}", spec.fam);
     let flav = FLAVOURS[flavour];
     // signature component: how the market was obtained (keyed and plain share the connector's `*_market` function)
@@ -1268,10 +1456,13 @@ fn judge(spec: &PairSpec, flavour: usize, via: usize, subset: &[usize], d: &Driv
     };
     // two subscriptions (even for an identical instrument) under one venue market
     let colliding = spec.universe().iter().any(|m| subset.iter().filter(|i| venue_symbol(spec.fam, &spec.menu[**i]) == *m).count() > 1);
-    if colliding {
+    if colliding && way == 0 {
         stats.collision_configs.fetch_add(1, Relaxed);
     }
 
+    if way > 0 && d.setup_err.is_some() {
+        return;
+    }
     if let Some(e) = &d.setup_err {
         // The connection could not even be set up: every subscribed market is lost. A venue refusing a duplicate
         // subscribe of two instruments sharing one market is a configuration the statement cannot separate.
@@ -1299,14 +1490,42 @@ fn judge(spec: &PairSpec, flavour: usize, via: usize, subset: &[usize], d: &Driv
         return;
     }
 
-    for (msg, obs) in d.msgs.iter().zip(&d.obs) {
+    // ---- R1, request side: the venue streams what it was asked for, so every subscribed instrument's market must be
+    // named in a subscribe request (spelling: `requested_markets`)
+    if let (0, Some(req)) = (way, &d.requested) {
+        stats.request_checks.fetch_add(1, Relaxed);
+        match req {
+            Err(e) => {
+                let m = venue_symbol(spec.fam, &spec.menu[subset[0]]);
+                report(format!("C13/R1-subscribed-market-lost/{fam}/{}/{how}/subscribe-request-not-in-the-venue-format", kinds_of(&m)), format!("pair={} flavour={flav} via={via_s} subset={subset:?}: {e}", spec.name), &m, "");
+            }
+            Ok(markets) => {
+                for i in subset {
+                    let m = venue_symbol(spec.fam, &spec.menu[*i]);
+                    if !markets.contains(&m) {
+                        report(
+                            format!("C13/R1-subscribed-market-lost/{fam}/{}/{how}/subscribe-request-does-not-name-the-market", spec.menu[*i].kind.tag()),
+                            format!("pair={} flavour={flav} via={via_s} subset={subset:?}: the venue writes the market of {:?} as {m}; the subscribe requests ask for {markets:?} (venue spelling), table={:?}", spec.name, spec.menu[*i], d.map_ids),
+                            &m,
+                            "",
+                        );
+                    }
+                }
+            }
+        }
+    }
+
+    for (msg, obs) in d.msgs.iter().zip(&d.obs[way]) {
         stats.evaluations.fetch_add(1, Relaxed);
+        if way > 0 {
+            stats.other_way_msgs.fetch_add(1, Relaxed);
+        }
         let owners = owners_of(&msg.market);
         let mut rep = |sig: String, detail: String| report(sig, format!("pair={} flavour={flav} via={via_s} subset={subset:?} market={} variant={} table={:?}: {detail}", spec.name, msg.market, msg.variant, d.map_ids), &msg.market, msg.variant);
         let class: String;
         if owners.is_empty() {
             // ---- R5: nobody subscribed this market
-            stats.unsubscribed_msgs.fetch_add(1, Relaxed);
+            stats.unsubscribed_msgs.fetch_add((way == 0) as u64, Relaxed);
             class = match obs {
                 MsgObs::DeErr(e) => {
                     rep(format!("C13/R5-unsubscribed/{fam}/payload-not-deserialisable"), format!("deserialise error {e}"));
@@ -1343,9 +1562,9 @@ fn judge(spec: &PairSpec, flavour: usize, via: usize, subset: &[usize], d: &Driv
             };
         } else {
             // ---- R1..R4: at least one subscribed instrument under this market
-            stats.subscribed_msgs.fetch_add(1, Relaxed);
+            stats.subscribed_msgs.fetch_add((way == 0) as u64, Relaxed);
             if owners.len() > 1 {
-                stats.collision_msgs.fetch_add(1, Relaxed);
+                stats.collision_msgs.fetch_add((way == 0) as u64, Relaxed);
             }
             let ik = kinds_of(&msg.market);
             class = match obs {
@@ -1385,7 +1604,14 @@ fn judge(spec: &PairSpec, flavour: usize, via: usize, subset: &[usize], d: &Driv
                         );
                         c = "sub:count".into();
                     } else {
-                        for (ev, exp) in items.iter().map(|i| i.as_ref().unwrap()).zip(&msg.expect) {
+                        let vals_match = |ev: &ObsEv, exp: &Exp| ev.nums.len() == exp.nums.len() && ev.nums.iter().zip(&exp.nums).all(|(g, alts)| alts.iter().any(|w| near(*g, *w) || (g.is_nan() && w.is_nan())));
+                        let mut evs: Vec<&ObsEv> = items.iter().map(|i| i.as_ref().unwrap()).collect();
+                        // the further ways re-emit the transformer's outputs; in which order the events of one batch come
+                        // out of them is not prescribed
+                        if way > 0 && evs.len() == 2 && !vals_match(evs[0], &msg.expect[0]) && vals_match(evs[0], &msg.expect[1]) {
+                            evs.swap(0, 1);
+                        }
+                        for (ev, exp) in evs.into_iter().zip(&msg.expect) {
                             stats.events_checked.fetch_add(1, Relaxed);
                             if let Some(diff) = &ev.conv_diff {
                                 rep("C13/R4-values/conversion-to-DataKind-event-alters-key-exchange-time-or-values".to_string(), diff.clone());
@@ -1402,8 +1628,7 @@ fn judge(spec: &PairSpec, flavour: usize, via: usize, subset: &[usize], d: &Driv
                                 rep(format!("C13/R3-exchange-id/{fam}/{how}"), format!("event exchange {} != {}", ev.exchange, spec.id));
                                 c = "sub:exchange".into();
                             }
-                            let vals_ok = ev.nums.len() == exp.nums.len() && ev.nums.iter().zip(&exp.nums).all(|(g, alts)| alts.iter().any(|w| near(*g, *w)));
-                            if !vals_ok {
+                            if !vals_match(ev, exp) {
                                 rep(
                                     format!("C13/R4-values/{fam}/{:?}/price-or-amount", spec.sk),
                                     format!("event numbers {:?}, payload states {:?}", ev.nums, exp.nums),
@@ -1421,12 +1646,12 @@ fn judge(spec: &PairSpec, flavour: usize, via: usize, subset: &[usize], d: &Driv
                                 );
                                 c = "sub:time".into();
                             }
-                            // the same exchange time inside the event kind (L1 `last_update_time`)
-                            if let Some(kt) = ev.kind_time {
+                            // an exchange time inside the event kind (L1 `last_update_time`, `Liquidation::time`, L2 `time_engine`)
+                            if let Some((label, kt)) = ev.kind_time {
                                 if !exp.times.is_empty() && !exp.times.iter().any(|t| (kt - *t).num_microseconds().is_some_and(|us| us.abs() <= 1000)) {
                                     rep(
-                                        format!("C13/R4-values/{fam}/{:?}/last-update-time", spec.sk),
-                                        format!("event kind's last_update_time {kt}, payload carries {:?}", exp.times),
+                                        format!("C13/R4-values/{fam}/{:?}/{label}", spec.sk),
+                                        format!("event kind's {label} {kt}, payload carries {:?}", exp.times),
                                     );
                                     c = "sub:kind-time".into();
                                 }
@@ -1439,6 +1664,10 @@ fn judge(spec: &PairSpec, flavour: usize, via: usize, subset: &[usize], d: &Driv
                     c
                 }
             };
+        }
+        if way > 0 {
+            outcomes.insert(format!("{}|way-{}|{class}", spec.name, PATHS[way]));
+            continue;
         }
         outcomes.insert(format!("{}|{flav}|{class}", spec.name));
         if via == 1 {
@@ -1537,7 +1766,7 @@ pub fn run(ctx: &Ctx) -> Outcome {
             let mut g = per_pair.lock().unwrap();
             let e = g.entry(spec.name).or_insert((0, 0));
             e.0 += 1;
-            e.1 += d.obs.len() as u64;
+            e.1 += d.obs.iter().map(|o| o.len() as u64).sum::<u64>();
         }
         if set.len() == 2 && *fl == 1 && *via == 0 && (*pi == 0 || *pi == 18 || *pi == 20) && set[0] == 0 {
             samples.offer(|| json!({"case": case_json(spec, *fl, *via, set, "", ""), "table": d.map_ids, "messages": d.msgs.len()}));
@@ -1581,6 +1810,10 @@ pub fn run(ctx: &Ctx) -> Outcome {
             "informational_collision_messages": stats.collision_msgs.load(Relaxed),
             "informational_collision_bitfinex_duplicate_subscribe_rejected": stats.collision_handshake_rejected.load(Relaxed),
             "bitfinex_handshakes_repeated_sequentially": resettled,
+            "ways_a_payload_reaches_the_transformer": PATHS,
+            "messages_judged_on_the_exchange_stream_and_buffered_ways": stats.other_way_msgs.load(Relaxed),
+            "configurations_whose_further_ways_were_not_judged_because_the_direct_way_reported": stats.other_ways_gated.load(Relaxed),
+            "configurations_whose_subscribe_requests_were_read_by_the_venue_model": stats.request_checks.load(Relaxed),
             "connector_kind_pairs": specs.len(),
             "flavours": FLAVOURS,
             "max_set_size": max_set,
@@ -1590,7 +1823,7 @@ pub fn run(ctx: &Ctx) -> Outcome {
             "outcome_classes": outcomes.iter().collect::<Vec<_>>(),
             "exhaustive": true,
             "vias": VIAS,
-            "rule": "for each of the 21 DynamicStreams (connector, kind) arms x 5 instrument flavours (incl. the two produced by the real generate_indexed_market_data_subscription_batches / index_market_data_subscription_batches from real IndexedInstruments) x every ordered instrument set (bounds above) from the connector's menu x {direct, through the real validate_batches front end of DynamicStreams::init (ascending sets)}: real WebSocketSubMapper::map -> [Bitfinex: real validator handshake] -> real ExchangeTransformer::init of the StreamSelector's transformer -> for every venue market (subscribed or not) 2-3 synthesised payloads -> serde_json::from_str::<Input> -> transform -> real conversion into MarketEvent<_, DataKind>; oracle R1-R5 of the module doc (+ indexed key = index of the named instrument, L1 last_update_time, conversion preserves the event)",
+            "rule": "for each of the 21 DynamicStreams (connector, kind) arms x 5 instrument flavours (incl. the two produced by the real generate_indexed_market_data_subscription_batches / index_market_data_subscription_batches from real IndexedInstruments) x every ordered instrument set (bounds above) from the connector's menu x {direct, through the real validate_batches front end of DynamicStreams::init (ascending sets)}: real WebSocketSubMapper::map -> [Bitfinex: real validator handshake] -> real ExchangeTransformer::init of the StreamSelector's transformer -> the subscribe requests read by a model of the venue's request format (which markets will it stream?) -> for every venue market (subscribed or not) 2-5 synthesised payloads (incl. one-sided L1 tops of book), each on three ways: serde_json::from_str::<Input> -> transform; a text frame through the real ExchangeStream<WebSocketParser, _, Transformer>; the real process_buffered_events -> real conversion into MarketEvent<_, DataKind>; oracle R1-R5 of the module doc (+ indexed key = index of the named instrument, L1 last_update_time, conversion preserves the event)",
             "samples": samples.take(),
         }),
         assumptions: vec![
@@ -1600,11 +1833,15 @@ pub fn run(ctx: &Ctx) -> Outcome {
             "two subscribed instruments whose venue markets coincide (btc/usdt vs BTC/usdt, eth/btc vs ethb/tc on concatenating venues) cannot be separated: either key is accepted (informational counters)".into(),
             "where the venue encodes the side in the sign of the size (Gate.io futures, Bitfinex) a signed or an absolute amount is accepted; any time stamp carried by the message is accepted as exchange time (1 ms tolerance)".into(),
             "a batch payload carries trades of one market (as in every doc-comment example)".into(),
+            "BitMEX: the amount of a trade is its `size`; `foreignNotional` equals it only for XBTUSD (the doc-comment example), other contracts carry another number there".into(),
             "Binance L2: the harness supplies the initial snapshot (lastUpdateId 100) through the real snapshot conversion since there is no network; updates are sequenced so that the sequencer accepts them".into(),
             "instrument sets of at most max_set_size instruments per connection".into(),
             "prices / quantities are decimal strings with 2 and 8 decimals, mostly not exactly representable in binary, compared with 1e-9 relative tolerance".into(),
-            "an L1 event's last_update_time is the exchange time of the update: judged like time_exchange, only where the message carries a time".into(),
+            "an L1 event's last_update_time, a Liquidation's time and an L2 book's time_engine (where the connector sets one) are exchange times of the message: judged like time_exchange (any time stamp the message carries), only where the message carries a time".into(),
             "the conversion into MarketEvent<_, DataKind> (DynamicStreams::select_all, the engine's path) is a wrapper: it must not change key, exchange, exchange time or values".into(),
+            "a venue streams the markets named in the subscribe requests; its request format is the one documented at the connector's Connector::requests (Binance stream names lower case, every other venue the spelling of its data messages); the channel part of a request is not judged".into(),
+            "an empty side of an L1 top of book is written by the venue as zero price and zero quantity (the value the connectors test for); the event may show that side as absent or as a zero level".into(),
+            "the exchange-stream and buffered ways are judged with R1-R5 like the direct way, except that the order of the events of one batch is free there; they are judged for a configuration only if the direct way reported nothing for it".into(),
             "`dynamic` front end: only validate_batches (validate, sort, dedup) and the re-wrapping are driven; the arms of DynamicStreams::init themselves open network connections and are not".into(),
         ],
     }
@@ -1633,8 +1870,11 @@ pub fn replay(ctx: &Ctx, case: &Value) {
         std::process::exit(2)
     }
     println!("replay {} flavour={} via={} subset={subset:?} table={:?} setup_err={:?}", spec.name, FLAVOURS[fl], VIAS[via], d.map_ids, d.setup_err);
-    for (m, o) in d.msgs.iter().zip(&d.obs) {
-        println!("  payload[{} {}] {} -> {o:?}", m.market, m.variant, m.json);
+    println!("  subscribe requests name (venue spelling): {:?}", d.requested);
+    for (way, obs) in d.obs.iter().enumerate() {
+        for (m, o) in d.msgs.iter().zip(obs) {
+            println!("  [{}] payload[{} {}] {} -> {o:?}", PATHS[way], m.market, m.variant, m.json);
+        }
     }
     let stats = Stats::default();
     let mut oc = BTreeSet::new();
